@@ -1,13 +1,17 @@
 ----------------------------- MODULE Gen_C04 -----------------------------
 (* Mode B generator for C04: payloads (all lengths mod 3 in bytes; ASCII, escaped
-   wildcard, 2-, 3- and 4-byte characters) x encoding modifier chains.            *)
+   wildcard, 2-, 3- and 4-byte characters, control and line-boundary characters) x
+   encoding modifier chains.                                                       *)
 EXTENDS SigmaStr, Json, IOUtils, Randomization, TLC
 VARIABLE x
 Tier == IOEnv.VERIF_TIER
 Shard == atoi(IOEnv.VERIF_SHARD)
 Alpha == {65, 98, 42, 233, 8364, 256, 128512, 92}
 MaxLen == IF Tier = "quick" THEN 3 ELSE 4
-Payloads == (SeqsUpTo(Alpha, MaxLen) \ {<<>>}) \cup
+\* characters that text functions single out (line feed: not matched by the regular expression dot; carriage return, NUL,
+\* next line U+0085 and line separator U+2028: line boundaries of splitlines) beside a letter
+Ctl == {10, 13, 0, 133, 8232, 65}
+Payloads == (SeqsUpTo(Alpha, MaxLen) \ {<<>>}) \cup (SeqsUpTo(Ctl, 3) \ {<<>>}) \cup
             UNION {RandomSubset(IF Tier = "quick" THEN 40 ELSE 1500, [1..n -> Alpha]) : n \in {5, 6, 7, 9}}
 Chains == <<
   <<"base64">>, <<"base64offset">>, <<"base64offset", "contains">>,
